@@ -232,6 +232,14 @@ def srange(v, signed=True):
     return (lo - (1 << (W - 1)), hi)
 
 
+class Ref:
+    """a reference bound to an element of an array (range-for variable)"""
+    __slots__ = ("cont", "key")
+
+    def __init__(self, cont, key):
+        self.cont, self.key = cont, key
+
+
 class Interp:
     """one abstract run of a function pattern; consts: name -> int for template parameters / static members"""
 
@@ -363,6 +371,18 @@ class Interp:
                 if inc is not None:
                     self.eval(inc, env)
             return True
+        if k == "CXXForRangeStmt":
+            var, rng, body = s["c"][0], s["c"][1], s["c"][-1]
+            cont, key = self.lval(rng, env)
+            arr = cont.get(key) if isinstance(cont, dict) else cont[key]
+            if not isinstance(arr, list) or var is None or var.get("k") != "VarDecl":
+                self.bad(s, "range-for over something that is not a local array")
+            byref = var.get("t", "").rstrip().endswith("&")
+            for i in range(len(arr)):
+                env[var["did"]] = Ref(arr, i) if byref else arr[i]
+                if not self.exec(body, env, rets):
+                    return False
+            return True
         if k == "NullStmt":
             return True
         if k in ("BreakStmt", "ContinueStmt", "DoStmt", "SwitchStmt", "GotoStmt"):
@@ -429,7 +449,14 @@ class Interp:
         return sl
 
     def copy(self, env):
-        return {d: (list(v) if isinstance(v, list) else v) for d, v in env.items()}
+        out = {d: (list(v) if isinstance(v, list) else v) for d, v in env.items()}
+        for d, v in out.items():
+            if isinstance(v, Ref):
+                # re-point a reference into the copied array
+                for d2, v2 in env.items():
+                    if v2 is v.cont:
+                        out[d] = Ref(out[d2], v.key)
+        return out
 
     def array_len(self, t, n):
         import re
@@ -448,6 +475,9 @@ class Interp:
         n = strip(n)
         k = n.get("k")
         if k == "DeclRefExpr":
+            v = env.get(n["did"])
+            if isinstance(v, Ref):
+                return v.cont, v.key
             return env, n["did"]
         if k == "ArraySubscriptExpr" or (k == "CXXOperatorCallExpr" and n.get("op") == "[]"):
             a, i = kids(n)[-2], kids(n)[-1]
@@ -479,7 +509,8 @@ class Interp:
             if n.get("name") in self.consts and n.get("did") not in env:
                 return self.consts[n["name"]]
             if n.get("did") in env:
-                return env[n["did"]]
+                v = env[n["did"]]
+                return v.cont[v.key] if isinstance(v, Ref) else v
             self.bad(n, "value of '%s' unknown" % n.get("name"))
         if k in ("CXXFunctionalCastExpr", "CStyleCastExpr", "CXXStaticCastExpr", "CXXUnresolvedConstructExpr", "ParenExpr", "ImplicitCastExpr", "CXXConstructExpr", "MaterializeTemporaryExpr"):
             c = kids(n)
@@ -656,6 +687,8 @@ class Interp:
 
 
 def snapshot(v):
+    if isinstance(v, Ref):
+        return ("ref", v.key)
     if isinstance(v, list):
         return tuple(snapshot(x) for x in v)
     if isinstance(v, Bits):
